@@ -1225,7 +1225,8 @@ mod mpp {
 				let mut parts = g.parts(&amts, total, Tlv::No, false);
 				// claim_funds on an incomplete set whose parts are not in (channel_id, htlc_id) order trips a
 				// debug_assert (see probe_unsorted_incomplete_claim): keep arrival order sorted for the claiming kinds
-				if kind != "under" { parts.sort_by_key(|p| w.rank[w.routes[p.route % nroutes].1]); }
+				// (the intercepting node picks its outbound channel itself: only direct parts have a predictable order)
+				if kind != "under" { for p in parts.iter_mut() { p.via = None; p.strict = false; p.declare = 0; } parts.sort_by_key(|p| w.rank[w.routes[p.route % nroutes].1]); }
 				let blocks = rng.chance(1, 4);
 				send_all(w, rec, rng, &mut s, &parts, blocks);
 				if kind == "under" {
